@@ -185,7 +185,7 @@ func nonNilAssumes(fn *ssa.Function, v ssa.Value) []Assume {
 	for _, b := range fn.Blocks {
 		for _, in := range b.Instrs {
 			bo, ok := in.(*ssa.BinOp)
-			if !ok || (bo.Op != token.NEQ && bo.Op != token.EQL) || bo.X != v {
+			if !ok || (bo.Op != token.NEQ && bo.Op != token.EQL) || (bo.X != v && !loadOfCellHolding(bo.X, v)) {
 				continue
 			}
 			if k, isK := bo.Y.(*ssa.Const); !isK || k.Value != nil {
@@ -206,6 +206,8 @@ func runC10(c *Ctx) {
 	c10ParserPerConnection(c)
 	c10HeaderOptionalFields(c, scope)
 	reflectMapStoreRule(c, "C10-D11")
+	c.Rule("C10-D12", "a parse error ends the connection it came from (F46, shared with C06-D11): on the client, after onClose(ReasonParseError) the Engine.IO socket the frame arrived on is closed on every path", 1)
+	parseErrorClosesConnection(c, "C10-D12")
 
 	// ---------------------------------------------------------------- D2
 	c.Rule("C10-D2", "handlers see only well-formed input: after every decode(...) the number of values is compared with the number of declared parameters before a handler is invoked "+
@@ -336,13 +338,28 @@ func runC10(c *Ctx) {
 		if len(as) == 0 {
 			continue
 		}
-		r, trail := PrunedCanReach(fn, add, as, nil, anyCallPred(e.report))
+		reports := anyCallPred(e.report)
+		viaClosure := func(in ssa.Instruction) bool {
+			// `go func() { … report(…) … }()`: the literal that is started (or called) here reports
+			ci, ok := in.(ssa.CallInstruction)
+			if !ok {
+				return false
+			}
+			mc, ok := ci.Common().Value.(*ssa.MakeClosure)
+			if !ok {
+				return false
+			}
+			lit := mc.Fn.(*ssa.Function)
+			skip, _ := CanReachExitAvoiding(lit, nil, reports)
+			return !skip
+		}
+		r, trail := PrunedCanReach(fn, add, as, nil, orPred(reports, viaClosure))
 		c.Ob("C10-D3", "sio."+e.fn+"/add-error-reported", add.Pos(), !r, "a parse error can be dropped without closing the connection: "+trailString(p, trail))
 		// after an error no further frame of the batch is fed to the parser
 		r2, trail2 := PrunedCanReach(fn, add, as, func(in ssa.Instruction) bool { return in == ssa.Instruction(add) }, nil)
 		c.Ob("C10-D3", "sio."+e.fn+"/add-error-stops", add.Pos(), !r2, "after a parse error the next frame is still fed to the parser: "+trailString(p, trail2))
 		if e.fn == "Manager.onEIOPacket" {
-			for _, cs := range CallsTo(Calls(fn), e.report) {
+			for _, cs := range CallsTo(CallsDeep(fn), e.report) {
 				ok := len(cs.Common().Args) >= 2 && Term(cs.Common().Args[1]) == fmt.Sprintf("%q:sio.Reason", "parse error") || strings.Contains(Term(cs.Common().Args[1]), "parse error")
 				c.Ob("C10-D3", "sio."+e.fn+"/reason-parse-error", cs.Pos(), ok, "the close reason for a parse error must be ReasonParseError; got "+Term(cs.Common().Args[1]))
 			}
@@ -782,4 +799,27 @@ func c10ParserPerConnectionRule(c *Ctx, rule string) {
 			c.Ob(rule, "sio."+a.fn+"/own-parser", st.Pos(), strings.HasPrefix(t, "dyn:") && strings.HasSuffix(t, "()"), a.field+".parser is set to "+t+": it must be the result of calling the parser creator for this connection")
 		}
 	}
+}
+
+// loadOfCellHolding: x is a load of a local cell (a variable captured by a closure lives in one) whose only
+// store is v.
+func loadOfCellHolding(x, v ssa.Value) bool {
+	ld, ok := x.(*ssa.UnOp)
+	if !ok || ld.Op != token.MUL {
+		return false
+	}
+	al, ok := ld.X.(*ssa.Alloc)
+	if !ok || al.Referrers() == nil {
+		return false
+	}
+	n, match := 0, false
+	for _, r := range *al.Referrers() {
+		if st, isSt := r.(*ssa.Store); isSt && st.Addr == ssa.Value(al) {
+			n++
+			if st.Val == v {
+				match = true
+			}
+		}
+	}
+	return n == 1 && match
 }
